@@ -15,7 +15,7 @@ Atomic steps       exactly the LOCK / UNLOCK / WAIT / TSIGNAL / pthread_create /
                    the preceding point, except that reads of racy plain fields that steer control
                    (`sock`, `state`) are separate silent (`tau`) steps, so the model has all the
                    interleavings of the scheduler and more.
-The model follows the code WITH the fixes/C13-*.diff applied (see docs/C13.md):
+The model follows the code WITH fixes/C13-01 … C13-04 applied (see docs/C13.md):
   rfbClientIteratorNext   LOCK L; step (skipping closed clients); rfbIncrClientRef(next); UNLOCK L;
                           rfbDecrClientRef(prev)
   rfbClientConnectionGone LOCK L; LOCK R; while refCount>0 {UNLOCK L; WAIT d,R; UNLOCK R; LOCK L;
